@@ -27,6 +27,8 @@ func resolve(c Call) []ropt {
 			env = append(env, ropt{items: b.Items})
 		case "handlers":
 			env = append(env, ropt{hs: b.Hs})
+		case "inert":
+			env = append(env, ropt{})
 		default:
 			p := env[b.Parent]
 			n := ropt{items: p.items, hs: p.hs}
@@ -278,6 +280,17 @@ func judge(c *Case, obs []CallObs, res *lib.Result) {
 		badAny := false
 		whyAny := ""
 		designated, nestedDesignated, hasCb := false, false, false
+		for _, j := range cl.Pass {
+			if j >= 0 && j < len(cl.Script) {
+				root := j
+				for cl.Script[root].Op == "designate" {
+					root = cl.Script[root].Parent
+				}
+				if cl.Script[root].Op == "inert" {
+					tags["opt:inert"] = true
+				}
+			}
+		}
 		for _, op := range opts {
 			if len(op.hs) > 0 {
 				hasCb = true
